@@ -735,7 +735,9 @@ class AssignmentCheck(Check):
         mol1 = rng.choice([{"source": "repo", "file": rng.choice(["H2O.gro", "NA.gro", "CL.gro", "glucose.xyz"])},
                            {"source": "gen", "fmt": "xyz", "kind": "generic", "atoms": gen_molecule(rng, "generic", 4)}])
         pool = {"workers": rng.choice([1, 1, 2, 3, 4]), "chunksize": rng.choice([None, None, 1, 3, 17, 50]),
-                "order_seed": rng.randrange(2 ** 31), "dup": rng.sample(range(7), rng.choice([0, 0, 1, 3]))}
+                "order_seed": rng.randrange(2 ** 31), "dup": rng.sample(range(7), rng.choice([0, 0, 1, 3])),
+                # where the caller left the trajectory cursor before handing the universe to the tool
+                "cursor_at": rng.choice([None, None, 1, 2, 7, 10 ** 6])}
         common = {"grid": {"b": b, "o": o, "t": t}, "mol1": mol1, "mol2": mol2, "pool": pool,
                   "include_outliers": rng.random() < 0.25, "cartesian_flag": rng.random() < 0.5,
                   "box": rng.choice([None, None, 8.0, 10.0, 30.0, 100.0]), "rng_init": rng.randrange(2 ** 32)}
@@ -847,8 +849,9 @@ class AssignmentCheck(Check):
                 stop = sc.get("stop")
                 if np.any(shift != 0):
                     probes["whole_system_shifted"] = 1
-            if sc["kind"] == "walk" and len(frames) > 3 and sc["pool"].get("cursor_at"):
+            if sc["kind"] == "walk" and len(frames) > 1 and sc["pool"].get("cursor_at"):
                 traj.trajectory[min(sc["pool"]["cursor_at"], len(frames) - 1)]
+                probes["cursor_left_on_later_frame"] = 1
             with lib_call("AssignmentTool(...).get_full_assignments()"):
                 at = tr.AssignmentTool(full_array, traj, u2, stop=stop, include_outliers=sc["include_outliers"],
                                        cartesian_grid=sc["cartesian_flag"])
